@@ -106,6 +106,11 @@ func (state *State) AddBlock(hash *bitcoin.Hash32, block wire.Block) bool {
 
 	for _, request := range state.blocksRequested {
 		if request.hash.Equal(hash) {
+			if !block.IsMerkleRootValid() {
+				// The header matches a request but the txs don't hash to its merkle root. Any peer,
+				// including untrusted ones, can send this, so keep waiting for the real block.
+				return false
+			}
 			if request.block != nil {
 				// Replacing a body that was already delivered, so release its size first.
 				state.pendingBlockSize -= request.size
